@@ -1,37 +1,37 @@
 (* SLaneR_proofs.v — the replay scheduler of Model/SLaneR.v only ever takes steps of the global model: whatever it is
    given (action lists, preferred order, window), every state it passes through is a reachable state of SLane, provided
-   the action lists contain SLane actions only (no override wakeup) and the thread ids are valid.  So a recorded round
+   the thread ids are valid.  So a recorded round
    that the scheduler consumes entirely IS a run of SLane with the recorded outcomes, and SLane's theorems apply to it. *)
 From Coq Require Import ZArith Bool List Lia.
 From Verif Require Import Word Conc Gen_consts Gen_dqstate SLane SLaneT SLaneR.
 Import ListNotations.
 Local Open Scope Z_scope.
 
-Definition sact_ok (a : sact) : bool :=
-  (m_kind (s_act a) <? 3) && (0 <? s_tid a) && (s_tid a <? 1073741824).
+Definition sact_ok (a : sact) : bool := (0 <? s_tid a) && (s_tid a <? 1073741824).
 Definition qs_ok (qs : list (Z * list sact)) : bool := forallb (fun q => forallb sact_ok (snd q)) qs.
 
 Lemma try_act_step s a s' : sact_ok a = true -> try_act s a = Some s' -> exists act, step s act s'.
 Proof.
-  unfold sact_ok. intros H T. apply andb_true_iff in H. destruct H as [H H3]. apply andb_true_iff in H. destruct H as [H1 H2].
-  apply Z.ltb_lt in H1, H2, H3.
+  unfold sact_ok. intros H T. apply andb_true_iff in H. destruct H as [H2 H3].
+  apply Z.ltb_lt in H2, H3.
   assert (V : valid_tid (s_tid a)) by (unfold valid_tid; lia).
   unfold try_act in T.
-  destruct (m_kind (s_act a) =? 0) eqn:K0.
-  - destruct (begin s (s_tid a) (CAsync (m_arg (s_act a)))) as [s1|] eqn:B; [|discriminate].
+  destruct (m_kind (s_act a) =? 0).
+  { destruct (begin s (s_tid a) (CAsync (m_arg (s_act a)))) as [s1|] eqn:B; [|discriminate].
     match type of T with (if ?c then _ else _) = _ => destruct c; [|discriminate] end.
-    injection T as <-. exists (ABegin (s_tid a) (CAsync (m_arg (s_act a)))). split; assumption.
-  - destruct (m_kind (s_act a) =? 1) eqn:K1.
-    + destruct (begin s (s_tid a) (CWorker (m_arg (s_act a)))) as [s1|] eqn:B; [|discriminate].
-      match type of T with (if ?c then _ else _) = _ => destruct c; [|discriminate] end.
-      injection T as <-. exists (ABegin (s_tid a) (CWorker (m_arg (s_act a)))). split; assumption.
-    + destruct (m_kind (s_act a) =? 2) eqn:K2.
-      * destruct (gstep s (s_tid a)) as [s1|] eqn:B; [|discriminate].
-        match type of T with (if ?c then _ else _) = _ => destruct c; [|discriminate] end.
-        injection T as <-. exists (AStep (s_tid a)). split; assumption.
-      * apply Z.eqb_neq in K0, K1, K2.
-        destruct (m_kind (s_act a) =? 3) eqn:K3; [apply Z.eqb_eq in K3; lia|].
-        destruct (m_kind (s_act a) =? 4) eqn:K4; [apply Z.eqb_eq in K4; lia|]. discriminate.
+    injection T as <-. exists (ABegin (s_tid a) (CAsync (m_arg (s_act a)))). split; assumption. }
+  destruct (m_kind (s_act a) =? 1).
+  { destruct (begin s (s_tid a) (CWorker (m_arg (s_act a)))) as [s1|] eqn:B; [|discriminate].
+    match type of T with (if ?c then _ else _) = _ => destruct c; [|discriminate] end.
+    injection T as <-. exists (ABegin (s_tid a) (CWorker (m_arg (s_act a)))). split; assumption. }
+  destruct (m_kind (s_act a) =? 2).
+  { destruct (gstep s (s_tid a)) as [s1|] eqn:B; [|discriminate].
+    match type of T with (if ?c then _ else _) = _ => destruct c; [|discriminate] end.
+    injection T as <-. exists (AStep (s_tid a)). split; assumption. }
+  destruct (m_kind (s_act a) =? 6); [|discriminate].
+  destruct (ostep s (s_tid a)) as [s1|] eqn:B; [|discriminate].
+  match type of T with (if ?c then _ else _) = _ => destruct c; [|discriminate] end.
+  injection T as <-. exists (AStepO (s_tid a)). split; assumption.
 Qed.
 
 Lemma lookup_ok t qs : qs_ok qs = true -> forallb sact_ok (lookup t qs) = true.
@@ -79,173 +79,182 @@ Corollary replay_reach rb w qs ord :
 Proof. intros Q. apply sched_reach; [exact Q | apply reach_init; reflexivity]. Qed.
 
 (* ---------------------------------------------------------------- a recorded round, replayed
-   One round of harness/c02_slane.c (two submitting threads, 16 items, a queue created with a UTILITY QoS attribute, 40 %
-   schedule perturbation; it contains a DIRTY retry of the drainer): the action lists SLaneR.abstract read off the three
-   thread traces and the order lib/props/c01_slane.py derived from the recorder's stamps and the exact dq_state /
-   dq_items_tail chains.  The scheduler consumes all 154 actions: the model ends with the recorded dq_state, an empty list,
-   nothing in the root queue, every thread idle and items 0..15 started in that order. *)
-(* seed 28 round 27 kind 10 threads 2 items 16 result [154, 0, 9005068950962176, 0, 0, 16, 1, 16, 1, -1] final 9005068950962176 *)
+   One round of harness/c02_slane.c under 40 % schedule perturbation that contains the need_override continuation of a push
+   onto a non-empty list (an AStepO action, kind 6, followed by the PA_oprobe / PA_owake steps): the action lists
+   SLaneR.abstract read off the thread traces and the order lib/props/c01_slane.py derived from the recorder's stamps and the
+   exact dq_state / dq_items_tail chains.  The scheduler consumes every action: the model ends with the recorded dq_state, an
+   empty list, nothing in the root queue, every thread idle and the items started in tail-exchange order. *)
+(* seed 20 round 22 kind 5 threads 2 items 16 result [162, 0, 9005068950962176, 0, 0, 16, 1, 16, 1, -1] final 9005068950962176 *)
 Definition SA (t : Z) (m : mact) (i : Z) : sact := {| s_tid := t; s_act := m; s_id := i |}.
 Definition ex_rb : Z := 1.
 Definition ex_qs : list (Z * list sact) := [
-  (2719, [SA 2719 (MA 1 0 7 (-1) 0 0) (-1);
-     SA 2719 (MA 2 0 7 (-1) 0 0) (-1);
-     SA 2719 (MA 2 0 8 27021681516087967 0 0) (-1);
-     SA 2719 (MA 2 0 9 (-1) 0 0) (-1);
-     SA 2719 (MA 2 0 10 (-1) 0 0) (-1);
-     SA 2719 (MA 2 0 12 (-1) 139825546009056 0) 0;
-     SA 2719 (MA 2 0 14 (-1) 139825546009056 0) 0;
-     SA 2719 (MA 2 0 16 (-1) 0 0) (-1);
-     SA 2719 (MA 2 0 10 (-1) 0 0) (-1);
-     SA 2719 (MA 2 0 12 (-1) 139825546009136 0) 1;
-     SA 2719 (MA 2 0 14 (-1) 139825546009136 0) 1;
-     SA 2719 (MA 2 0 16 (-1) 0 0) (-1);
-     SA 2719 (MA 2 0 10 (-1) 0 0) (-1);
-     SA 2719 (MA 2 0 12 (-1) 139826150000944 0) 2;
-     SA 2719 (MA 2 0 14 (-1) 139826150000944 0) 2;
-     SA 2719 (MA 2 0 16 (-1) 0 0) (-1);
-     SA 2719 (MA 2 0 10 (-1) 0 0) (-1);
-     SA 2719 (MA 2 0 12 (-1) 139826150001024 0) 3;
-     SA 2719 (MA 2 0 14 (-1) 139826150001024 0) 3;
-     SA 2719 (MA 2 0 16 (-1) 0 0) (-1);
-     SA 2719 (MA 2 0 10 (-1) 0 0) (-1);
-     SA 2719 (MA 2 0 12 (-1) 139826150001104 0) 4;
-     SA 2719 (MA 2 0 14 (-1) 139826150001104 0) 4;
-     SA 2719 (MA 2 0 16 (-1) 0 0) (-1);
-     SA 2719 (MA 2 0 10 (-1) 0 0) (-1);
-     SA 2719 (MA 2 0 12 (-1) 139826150001184 0) 5;
-     SA 2719 (MA 2 0 14 (-1) 139826150001184 0) 5;
-     SA 2719 (MA 2 0 16 (-1) 0 0) (-1);
-     SA 2719 (MA 2 0 10 (-1) 0 0) (-1);
-     SA 2719 (MA 2 0 12 (-1) 139825546009216 0) 6;
-     SA 2719 (MA 2 0 14 (-1) 139825546009216 0) 6;
-     SA 2719 (MA 2 0 16 (-1) 0 0) (-1);
-     SA 2719 (MA 2 0 10 (-1) 0 0) (-1);
-     SA 2719 (MA 2 0 11 (-1) 139826150001264 0) 7;
-     SA 2719 (MA 2 0 13 (-1) 139826150001264 0) 7;
-     SA 2719 (MA 2 0 15 (-1) 0 0) (-1);
-     SA 2719 (MA 2 0 17 (-1) 0 1) (-1);
-     SA 2719 (MA 2 0 18 (-1) 0 0) (-1);
-     SA 2719 (MA 2 0 8 27021681516087967 0 0) (-1);
-     SA 2719 (MA 2 0 9 (-1) 0 0) (-1);
-     SA 2719 (MA 2 0 10 (-1) 0 0) (-1);
-     SA 2719 (MA 2 0 12 (-1) 139826150001344 0) 8;
-     SA 2719 (MA 2 0 14 (-1) 139826150001344 0) 8;
-     SA 2719 (MA 2 0 16 (-1) 0 0) (-1);
-     SA 2719 (MA 2 0 10 (-1) 0 0) (-1);
-     SA 2719 (MA 2 0 12 (-1) 139826150001424 0) 9;
-     SA 2719 (MA 2 0 14 (-1) 139826150001424 0) 9;
-     SA 2719 (MA 2 0 16 (-1) 0 0) (-1);
-     SA 2719 (MA 2 0 10 (-1) 0 0) (-1);
-     SA 2719 (MA 2 0 11 (-1) 139825546009296 0) 10;
-     SA 2719 (MA 2 0 13 (-1) 139825546009296 0) 10;
-     SA 2719 (MA 2 0 15 (-1) 0 0) (-1);
-     SA 2719 (MA 2 0 17 (-1) 0 1) (-1);
-     SA 2719 (MA 2 0 0 9005068950962176 0 0) (-1);
-     SA 2719 (MA 1 0 7 (-1) 0 0) (-1);
-     SA 2719 (MA 2 0 7 (-1) 0 0) (-1);
-     SA 2719 (MA 2 0 8 27021681516087967 0 0) (-1);
-     SA 2719 (MA 2 0 9 (-1) 0 0) (-1);
-     SA 2719 (MA 2 0 10 (-1) 0 0) (-1);
-     SA 2719 (MA 2 0 12 (-1) 139826150001504 0) 11;
-     SA 2719 (MA 2 0 14 (-1) 139826150001504 0) 11;
-     SA 2719 (MA 2 0 16 (-1) 0 0) (-1);
-     SA 2719 (MA 2 0 10 (-1) 0 0) (-1);
-     SA 2719 (MA 2 0 11 (-1) 139826150001584 0) 12;
-     SA 2719 (MA 2 0 13 (-1) 139826150001584 0) 12;
-     SA 2719 (MA 2 0 15 (-1) 0 0) (-1);
-     SA 2719 (MA 2 0 17 (-1) 0 1) (-1);
-     SA 2719 (MA 2 0 0 9005068950962176 0 0) (-1);
-     SA 2719 (MA 1 0 7 (-1) 0 0) (-1);
-     SA 2719 (MA 2 0 7 (-1) 0 0) (-1);
-     SA 2719 (MA 2 0 8 27021681516087967 0 0) (-1);
-     SA 2719 (MA 2 0 9 (-1) 0 0) (-1);
-     SA 2719 (MA 2 0 10 (-1) 0 0) (-1);
-     SA 2719 (MA 2 0 11 (-1) 139826150001664 0) 13;
-     SA 2719 (MA 2 0 13 (-1) 139826150001664 0) 13;
-     SA 2719 (MA 2 0 15 (-1) 0 0) (-1);
-     SA 2719 (MA 2 0 17 (-1) 0 1) (-1);
-     SA 2719 (MA 2 0 0 9005068950962176 0 0) (-1);
-     SA 2719 (MA 1 0 7 (-1) 0 0) (-1);
-     SA 2719 (MA 2 0 7 (-1) 0 0) (-1);
-     SA 2719 (MA 2 0 8 27021681516087967 0 0) (-1);
-     SA 2719 (MA 2 0 9 (-1) 0 0) (-1);
-     SA 2719 (MA 2 0 10 (-1) 0 0) (-1);
-     SA 2719 (MA 2 0 12 (-1) 139826150001744 0) 14;
-     SA 2719 (MA 2 0 14 (-1) 139826150001744 0) 14;
-     SA 2719 (MA 2 0 16 (-1) 0 0) (-1);
-     SA 2719 (MA 2 0 10 (-1) 0 0) (-1);
-     SA 2719 (MA 2 0 11 (-1) 139826150001824 0) 15;
-     SA 2719 (MA 2 0 13 (-1) 139826150001824 0) 15;
-     SA 2719 (MA 2 0 15 (-1) 0 0) (-1);
-     SA 2719 (MA 2 0 17 (-1) 0 1) (-1);
-     SA 2719 (MA 2 0 0 9005068950962176 0 0) (-1)]);
-  (2773, [SA 2773 (MA 0 3 1 (-1) 0 0) (-1);
-     SA 2773 (MA 2 0 3 (-1) 139825546009056 0) 0;
-     SA 2773 (MA 2 0 4 (-1) 0 0) (-1);
-     SA 2773 (MA 2 0 5 (-1) 0 0) (-1);
-     SA 2773 (MA 2 0 6 9005668098899968 0 0) (-1);
-     SA 2773 (MA 2 0 0 (-1) 0 0) (-1);
-     SA 2773 (MA 0 3 1 (-1) 0 0) (-1);
-     SA 2773 (MA 2 0 2 (-1) 139825546009136 0) 1;
-     SA 2773 (MA 2 0 0 (-1) 0 0) (-1);
-     SA 2773 (MA 0 3 1 (-1) 0 0) (-1);
-     SA 2773 (MA 2 0 2 (-1) 139825546009216 0) 6;
-     SA 2773 (MA 2 0 0 (-1) 0 0) (-1);
-     SA 2773 (MA 0 3 1 (-1) 0 0) (-1);
-     SA 2773 (MA 2 0 2 (-1) 139825546009296 0) 10;
-     SA 2773 (MA 2 0 0 (-1) 0 0) (-1)]);
-  (2772, [SA 2772 (MA 0 3 1 (-1) 0 0) (-1);
-     SA 2772 (MA 2 0 2 (-1) 139826150000944 0) 2;
-     SA 2772 (MA 2 0 0 (-1) 0 0) (-1);
-     SA 2772 (MA 0 3 1 (-1) 0 0) (-1);
-     SA 2772 (MA 2 0 2 (-1) 139826150001024 0) 3;
-     SA 2772 (MA 2 0 0 (-1) 0 0) (-1);
-     SA 2772 (MA 0 3 1 (-1) 0 0) (-1);
-     SA 2772 (MA 2 0 2 (-1) 139826150001104 0) 4;
-     SA 2772 (MA 2 0 0 (-1) 0 0) (-1);
-     SA 2772 (MA 0 3 1 (-1) 0 0) (-1);
-     SA 2772 (MA 2 0 2 (-1) 139826150001184 0) 5;
-     SA 2772 (MA 2 0 0 (-1) 0 0) (-1);
-     SA 2772 (MA 0 3 1 (-1) 0 0) (-1);
-     SA 2772 (MA 2 0 2 (-1) 139826150001264 0) 7;
-     SA 2772 (MA 2 0 0 (-1) 0 0) (-1);
-     SA 2772 (MA 0 3 1 (-1) 0 0) (-1);
-     SA 2772 (MA 2 0 3 (-1) 139826150001344 0) 8;
-     SA 2772 (MA 2 0 4 (-1) 0 0) (-1);
-     SA 2772 (MA 2 0 5 (-1) 0 0) (-1);
-     SA 2772 (MA 2 0 0 27022231271901855 0 0) (-1);
-     SA 2772 (MA 0 3 1 (-1) 0 0) (-1);
-     SA 2772 (MA 2 0 2 (-1) 139826150001424 0) 9;
-     SA 2772 (MA 2 0 0 (-1) 0 0) (-1);
-     SA 2772 (MA 0 3 1 (-1) 0 0) (-1);
-     SA 2772 (MA 2 0 3 (-1) 139826150001504 0) 11;
-     SA 2772 (MA 2 0 4 (-1) 0 0) (-1);
-     SA 2772 (MA 2 0 5 (-1) 0 0) (-1);
-     SA 2772 (MA 2 0 6 9005668098899968 0 0) (-1);
-     SA 2772 (MA 2 0 0 (-1) 0 0) (-1);
-     SA 2772 (MA 0 3 1 (-1) 0 0) (-1);
-     SA 2772 (MA 2 0 2 (-1) 139826150001584 0) 12;
-     SA 2772 (MA 2 0 0 (-1) 0 0) (-1);
-     SA 2772 (MA 0 3 1 (-1) 0 0) (-1);
-     SA 2772 (MA 2 0 3 (-1) 139826150001664 0) 13;
-     SA 2772 (MA 2 0 4 (-1) 0 0) (-1);
-     SA 2772 (MA 2 0 5 (-1) 0 0) (-1);
-     SA 2772 (MA 2 0 6 9005668098899968 0 0) (-1);
-     SA 2772 (MA 2 0 0 (-1) 0 0) (-1);
-     SA 2772 (MA 0 3 1 (-1) 0 0) (-1);
-     SA 2772 (MA 2 0 3 (-1) 139826150001744 0) 14;
-     SA 2772 (MA 2 0 4 (-1) 0 0) (-1);
-     SA 2772 (MA 2 0 5 (-1) 0 0) (-1);
-     SA 2772 (MA 2 0 6 9005668098899968 0 0) (-1);
-     SA 2772 (MA 2 0 0 (-1) 0 0) (-1);
-     SA 2772 (MA 0 3 1 (-1) 0 0) (-1);
-     SA 2772 (MA 2 0 2 (-1) 139826150001824 0) 15;
-     SA 2772 (MA 2 0 0 (-1) 0 0) (-1)])].
-Definition ex_ord : list Z := [2773; 2773; 2773; 2773; 2773; 2773; 2773; 2773; 2719; 2719; 2719; 2719; 2719; 2772; 2772; 2772; 2772; 2772; 2772; 2772; 2772; 2772; 2772; 2772; 2773; 2773; 2773; 2773; 2719; 2719; 2719; 2719; 2772; 2772; 2772; 2772; 2719; 2719; 2772; 2719; 2719; 2719; 2719; 2719; 2719; 2719; 2719; 2719; 2719; 2719; 2719; 2719; 2719; 2719; 2719; 2719; 2719; 2719; 2719; 2719; 2719; 2719; 2719; 2719; 2719; 2772; 2772; 2772; 2772; 2719; 2719; 2719; 2719; 2772; 2772; 2772; 2719; 2719; 2719; 2719; 2773; 2773; 2773; 2719; 2719; 2719; 2719; 2719; 2719; 2719; 2719; 2719; 2772; 2772; 2772; 2772; 2772; 2772; 2772; 2772; 2772; 2719; 2719; 2719; 2719; 2719; 2719; 2719; 2719; 2719; 2719; 2719; 2719; 2719; 2719; 2772; 2772; 2772; 2772; 2772; 2772; 2719; 2719; 2719; 2719; 2719; 2719; 2719; 2719; 2719; 2772; 2719; 2772; 2772; 2772; 2772; 2772; 2772; 2772; 2772; 2719; 2719; 2719; 2719; 2719; 2719; 2719; 2719; 2719; 2719; 2719; 2719; 2719; 2719].
-Definition ex_result : list Z := [154; 0; 9005068950962176; 0; 0; 16; 1; 16; 1; (-1)].
+  (28380, [SA 28380 (MA 1 0 7 (-1) 0 0) (-1);
+     SA 28380 (MA 2 0 7 (-1) 0 0) (-1);
+     SA 28380 (MA 2 0 8 27021677221146332 0 0) (-1);
+     SA 28380 (MA 2 0 9 (-1) 0 0) (-1);
+     SA 28380 (MA 2 0 10 (-1) 0 0) (-1);
+     SA 28380 (MA 2 0 12 (-1) 139629588127248 0) 0;
+     SA 28380 (MA 2 0 14 (-1) 139629588127248 0) 0;
+     SA 28380 (MA 2 0 16 (-1) 0 0) (-1);
+     SA 28380 (MA 2 0 10 (-1) 0 0) (-1);
+     SA 28380 (MA 2 0 12 (-1) 139629453906544 0) 1;
+     SA 28380 (MA 2 0 14 (-1) 139629453906544 0) 1;
+     SA 28380 (MA 2 0 16 (-1) 0 0) (-1);
+     SA 28380 (MA 2 0 10 (-1) 0 0) (-1);
+     SA 28380 (MA 2 0 12 (-1) 139629453906624 0) 2;
+     SA 28380 (MA 2 0 14 (-1) 139629453906624 0) 2;
+     SA 28380 (MA 2 0 16 (-1) 0 0) (-1);
+     SA 28380 (MA 2 0 10 (-1) 0 0) (-1);
+     SA 28380 (MA 2 0 12 (-1) 139629453906704 0) 3;
+     SA 28380 (MA 2 0 14 (-1) 139629453906704 0) 3;
+     SA 28380 (MA 2 0 16 (-1) 0 0) (-1);
+     SA 28380 (MA 2 0 10 (-1) 0 0) (-1);
+     SA 28380 (MA 2 0 11 (-1) 139629588127328 0) 4;
+     SA 28380 (MA 2 0 13 (-1) 139629588127328 0) 4;
+     SA 28380 (MA 2 0 15 (-1) 0 0) (-1);
+     SA 28380 (MA 2 0 9 (-1) 0 0) (-1);
+     SA 28380 (MA 2 0 10 (-1) 0 0) (-1);
+     SA 28380 (MA 2 0 12 (-1) 139629588127408 0) 5;
+     SA 28380 (MA 2 0 14 (-1) 139629588127408 0) 5;
+     SA 28380 (MA 2 0 16 (-1) 0 0) (-1);
+     SA 28380 (MA 2 0 10 (-1) 0 0) (-1);
+     SA 28380 (MA 2 0 11 (-1) 139629588127488 0) 6;
+     SA 28380 (MA 2 0 13 (-1) 139629588127488 0) 6;
+     SA 28380 (MA 2 0 15 (-1) 0 0) (-1);
+     SA 28380 (MA 2 0 17 (-1) 0 1) (-1);
+     SA 28380 (MA 2 0 18 (-1) 0 0) (-1);
+     SA 28380 (MA 2 0 8 27021677221146332 0 0) (-1);
+     SA 28380 (MA 2 0 9 (-1) 0 0) (-1);
+     SA 28380 (MA 2 0 10 (-1) 0 0) (-1);
+     SA 28380 (MA 2 0 12 (-1) 139629588127568 0) 7;
+     SA 28380 (MA 2 0 14 (-1) 139629588127568 0) 7;
+     SA 28380 (MA 2 0 16 (-1) 0 0) (-1);
+     SA 28380 (MA 2 0 10 (-1) 0 0) (-1);
+     SA 28380 (MA 2 0 11 (-1) 139629588127648 0) 8;
+     SA 28380 (MA 2 0 13 (-1) 139629588127648 0) 8;
+     SA 28380 (MA 2 0 15 (-1) 0 0) (-1);
+     SA 28380 (MA 2 0 17 (-1) 0 1) (-1);
+     SA 28380 (MA 2 0 18 (-1) 0 0) (-1);
+     SA 28380 (MA 2 0 8 27021677221146332 0 0) (-1);
+     SA 28380 (MA 2 0 17 (-1) 0 1) (-1);
+     SA 28380 (MA 2 0 0 9005068950962176 0 0) (-1);
+     SA 28380 (MA 1 0 7 (-1) 0 0) (-1);
+     SA 28380 (MA 2 0 7 (-1) 0 0) (-1);
+     SA 28380 (MA 2 0 8 27021677221146332 0 0) (-1);
+     SA 28380 (MA 2 0 9 (-1) 0 0) (-1);
+     SA 28380 (MA 2 0 10 (-1) 0 0) (-1);
+     SA 28380 (MA 2 0 12 (-1) 139629588127808 0) 10;
+     SA 28380 (MA 2 0 14 (-1) 139629588127808 0) 10;
+     SA 28380 (MA 2 0 16 (-1) 0 0) (-1);
+     SA 28380 (MA 2 0 10 (-1) 0 0) (-1);
+     SA 28380 (MA 2 0 12 (-1) 139629588127888 0) 11;
+     SA 28380 (MA 2 0 14 (-1) 139629588127888 0) 11;
+     SA 28380 (MA 2 0 16 (-1) 0 0) (-1);
+     SA 28380 (MA 2 0 10 (-1) 0 0) (-1);
+     SA 28380 (MA 2 0 12 (-1) 139629588127968 0) 12;
+     SA 28380 (MA 2 0 14 (-1) 139629588127968 0) 12;
+     SA 28380 (MA 2 0 16 (-1) 0 0) (-1);
+     SA 28380 (MA 2 0 10 (-1) 0 0) (-1);
+     SA 28380 (MA 2 0 11 (-1) 139629588128048 0) 13;
+     SA 28380 (MA 2 0 13 (-1) 139629588128048 0) 13;
+     SA 28380 (MA 2 0 15 (-1) 0 0) (-1);
+     SA 28380 (MA 2 0 17 (-1) 0 1) (-1);
+     SA 28380 (MA 2 0 0 9005068950962176 0 0) (-1)]);
+  (28381, [SA 28381 (MA 1 0 7 (-1) 0 0) (-1);
+     SA 28381 (MA 2 0 7 (-1) 0 0) (-1);
+     SA 28381 (MA 2 0 8 27021677221146333 0 0) (-1);
+     SA 28381 (MA 2 0 9 (-1) 0 0) (-1);
+     SA 28381 (MA 2 0 10 (-1) 0 0) (-1);
+     SA 28381 (MA 2 0 11 (-1) 139629588127728 0) 9;
+     SA 28381 (MA 2 0 13 (-1) 139629588127728 0) 9;
+     SA 28381 (MA 2 0 15 (-1) 0 0) (-1);
+     SA 28381 (MA 2 0 17 (-1) 0 1) (-1);
+     SA 28381 (MA 2 0 0 9005068950962176 0 0) (-1);
+     SA 28381 (MA 1 0 7 (-1) 0 0) (-1);
+     SA 28381 (MA 2 0 7 (-1) 0 0) (-1);
+     SA 28381 (MA 2 0 8 27021677221146333 0 0) (-1);
+     SA 28381 (MA 2 0 9 (-1) 0 0) (-1);
+     SA 28381 (MA 2 0 10 (-1) 0 0) (-1);
+     SA 28381 (MA 2 0 12 (-1) 139629588128128 0) 14;
+     SA 28381 (MA 2 0 14 (-1) 139629588128128 0) 14;
+     SA 28381 (MA 2 0 16 (-1) 0 0) (-1);
+     SA 28381 (MA 2 0 10 (-1) 0 0) (-1);
+     SA 28381 (MA 2 0 11 (-1) 139629588128208 0) 15;
+     SA 28381 (MA 2 0 13 (-1) 139629588128208 0) 15;
+     SA 28381 (MA 2 0 15 (-1) 0 0) (-1);
+     SA 28381 (MA 2 0 17 (-1) 0 1) (-1);
+     SA 28381 (MA 2 0 0 9005068950962176 0 0) (-1)]);
+  (28488, [SA 28488 (MA 0 2 1 (-1) 0 0) (-1);
+     SA 28488 (MA 2 0 3 (-1) 139629588127248 0) 0;
+     SA 28488 (MA 2 0 4 (-1) 0 0) (-1);
+     SA 28488 (MA 2 0 5 (-1) 0 0) (-1);
+     SA 28488 (MA 2 0 0 9005663803932672 0 0) (-1);
+     SA 28488 (MA 0 2 1 (-1) 0 0) (-1);
+     SA 28488 (MA 2 0 2 (-1) 139629588127328 0) 4;
+     SA 28488 (MA 2 0 0 (-1) 0 0) (-1);
+     SA 28488 (MA 0 2 1 (-1) 0 0) (-1);
+     SA 28488 (MA 2 0 3 (-1) 139629588127408 0) 5;
+     SA 28488 (MA 2 0 4 (-1) 0 0) (-1);
+     SA 28488 (MA 2 0 5 (-1) 0 0) (-1);
+     SA 28488 (MA 2 0 0 27022226976960220 0 0) (-1);
+     SA 28488 (MA 0 2 1 (-1) 0 0) (-1);
+     SA 28488 (MA 2 0 2 (-1) 139629588127488 0) 6;
+     SA 28488 (MA 2 0 0 (-1) 0 0) (-1);
+     SA 28488 (MA 0 2 1 (-1) 0 0) (-1);
+     SA 28488 (MA 2 0 3 (-1) 139629588127568 0) 7;
+     SA 28488 (MA 2 0 4 (-1) 0 0) (-1);
+     SA 28488 (MA 2 0 5 (-1) 0 0) (-1);
+     SA 28488 (MA 2 0 0 27022226976960220 0 0) (-1);
+     SA 28488 (MA 0 2 1 (-1) 0 0) (-1);
+     SA 28488 (MA 2 0 2 (-1) 139629588127648 0) 8;
+     SA 28488 (MA 2 0 0 (-1) 0 0) (-1);
+     SA 28488 (MA 0 2 1 (-1) 0 0) (-1);
+     SA 28488 (MA 2 0 3 (-1) 139629588127728 0) 9;
+     SA 28488 (MA 2 0 4 (-1) 0 0) (-1);
+     SA 28488 (MA 2 0 5 (-1) 0 0) (-1);
+     SA 28488 (MA 2 0 6 9005663803932672 0 0) (-1);
+     SA 28488 (MA 2 0 0 (-1) 0 0) (-1);
+     SA 28488 (MA 0 2 1 (-1) 0 0) (-1);
+     SA 28488 (MA 2 0 3 (-1) 139629588127808 0) 10;
+     SA 28488 (MA 2 0 4 (-1) 0 0) (-1);
+     SA 28488 (MA 2 0 5 (-1) 0 0) (-1);
+     SA 28488 (MA 2 0 6 9005663803932672 0 0) (-1);
+     SA 28488 (MA 2 0 0 (-1) 0 0) (-1);
+     SA 28488 (MA 0 2 1 (-1) 0 0) (-1);
+     SA 28488 (MA 2 0 2 (-1) 139629588127888 0) 11;
+     SA 28488 (MA 2 0 0 (-1) 0 0) (-1);
+     SA 28488 (MA 0 2 1 (-1) 0 0) (-1);
+     SA 28488 (MA 2 0 2 (-1) 139629588127968 0) 12;
+     SA 28488 (MA 2 0 0 (-1) 0 0) (-1);
+     SA 28488 (MA 0 2 1 (-1) 0 0) (-1);
+     SA 28488 (MA 2 0 2 (-1) 139629588128048 0) 13;
+     SA 28488 (MA 2 0 0 (-1) 0 0) (-1);
+     SA 28488 (MA 0 2 1 (-1) 0 0) (-1);
+     SA 28488 (MA 2 0 3 (-1) 139629588128128 0) 14;
+     SA 28488 (MA 2 0 4 (-1) 0 0) (-1);
+     SA 28488 (MA 2 0 5 (-1) 0 0) (-1);
+     SA 28488 (MA 2 0 6 9005663803932672 0 0) (-1);
+     SA 28488 (MA 2 0 0 (-1) 0 0) (-1);
+     SA 28488 (MA 0 2 1 (-1) 0 0) (-1);
+     SA 28488 (MA 2 0 2 (-1) 139629588128208 0) 15;
+     SA 28488 (MA 2 0 0 (-1) 0 0) (-1)]);
+  (28487, [SA 28487 (MA 0 2 1 (-1) 0 0) (-1);
+     SA 28487 (MA 2 0 2 (-1) 139629453906544 0) 1;
+     SA 28487 (MA 6 0 19 (-1) 0 0) (-1);
+     SA 28487 (MA 2 0 20 (-1) 0 0) (-1);
+     SA 28487 (MA 2 0 6 9005114048118784 0 0) (-1);
+     SA 28487 (MA 2 0 0 (-1) 0 0) (-1);
+     SA 28487 (MA 0 2 1 (-1) 0 0) (-1);
+     SA 28487 (MA 2 0 2 (-1) 139629453906624 0) 2;
+     SA 28487 (MA 2 0 0 (-1) 0 0) (-1);
+     SA 28487 (MA 0 2 1 (-1) 0 0) (-1);
+     SA 28487 (MA 2 0 2 (-1) 139629453906704 0) 3;
+     SA 28487 (MA 2 0 0 (-1) 0 0) (-1)])].
+Definition ex_ord : list Z := [28488; 28488; 28487; 28487; 28487; 28487; 28487; 28487; 28487; 28488; 28487; 28487; 28487; 28487; 28488; 28488; 28487; 28488; 28488; 28380; 28380; 28380; 28380; 28380; 28380; 28380; 28380; 28380; 28380; 28380; 28380; 28380; 28380; 28380; 28380; 28380; 28488; 28488; 28380; 28380; 28380; 28380; 28380; 28488; 28488; 28488; 28488; 28488; 28488; 28488; 28380; 28380; 28380; 28380; 28380; 28380; 28380; 28380; 28380; 28380; 28380; 28380; 28380; 28488; 28380; 28488; 28380; 28488; 28488; 28488; 28488; 28488; 28380; 28488; 28380; 28380; 28380; 28380; 28380; 28380; 28380; 28380; 28380; 28380; 28380; 28380; 28488; 28488; 28488; 28488; 28488; 28488; 28381; 28381; 28381; 28381; 28381; 28381; 28381; 28381; 28381; 28381; 28488; 28488; 28488; 28488; 28488; 28488; 28488; 28488; 28488; 28488; 28488; 28488; 28488; 28488; 28488; 28380; 28380; 28380; 28380; 28380; 28380; 28380; 28380; 28380; 28380; 28380; 28380; 28380; 28380; 28380; 28380; 28380; 28380; 28380; 28380; 28380; 28380; 28488; 28488; 28488; 28488; 28488; 28488; 28488; 28488; 28381; 28381; 28381; 28488; 28381; 28381; 28381; 28381; 28381; 28381; 28381; 28381; 28381; 28381; 28381].
+Definition ex_result : list Z := [162; 0; 9005068950962176; 0; 0; 16; 1; 16; 1; (-1)].
 
 Lemma demo_replay :
   qs_ok ex_qs = true /\ replay ex_rb 48 ex_qs ex_ord = ex_result /\
-  nth 1 ex_result 1 = 0 /\ nth 0 ex_result 0 = Z.of_nat (length ex_ord).
+  nth 1 ex_result 1 = 0 /\ nth 0 ex_result 0 = Z.of_nat (length ex_ord) /\
+  existsb (fun q => existsb (fun a => m_kind (s_act a) =? 6) (snd q)) ex_qs = true.
 Proof. vm_compute. repeat split. Qed.
